@@ -11,7 +11,8 @@ CLAIMED["C11"] = (
     "TLC checks exhaustively that the ring design (packet_window.rs transcribed) refines the abstract set model at scaled constants, "
     "enumerates every history over a boundary alphabet at the real constants and replays each on the real PacketWindowFilter; "
     "random long histories recorded from the real filter are validated by TLC against the set model. Exhaustive on the model, "
-    "sampled on 64-bit IDs. PacketSessions: every history of five (server session, id) presentations is replayed on the real client "
+    "sampled on 64-bit IDs. Unbounded history length at the scaled constants: Apalache discharges an inductive invariant of ring and set model in lock step "
+    "(PacketRingInd; base and step, EdgeGE deviation fails). PacketSessions: every history of five (server session, id) presentations is replayed on the real client "
     "datagram codec with replies made by the real server codec (deviations OneWindow, ResetOnFlip). End to end: real client and server with a "
     "UDP middlebox that duplicates, delays, reorders, replays from another address, with datagrams the server cannot pass on between an accepted "
     "datagram and its copy, and with the server restarted in mid-session while recorded datagrams of the old server session are presented again.",
